@@ -144,18 +144,44 @@ def run_formats(ck, tier, pid):
         tr = os.path.join(work, "emitted-read.ndjson")
         p = vlib.harness(["formats", "emitted", "-in", emitted, "-out", tr])
         vlib.log("  [emitted] %s of the bounded model read by the real readers" % p.stdout.strip())
-        evs = [e for e in vlib.read_ndjson(tr) if prop_of(e) == pid]
-        if not thorough and len(evs) > 16000:
-            import random
-            random.Random(ck.seed).shuffle(evs)
-            evs = evs[:16000]
-            ck.exhaustive = False
-        judge(ck, pid, evs, "model-files", work)
-        withres = [e for e in evs if "results" in e and "text" in e] or [{"text": [], "results": []}]
-        mid = withres[len(withres) // 2]
+        import hashlib, random
+        nontriv_h = set()
+        mid = None
+        if not thorough:
+            evs = [e for e in vlib.read_ndjson(tr) if prop_of(e) == pid]
+            if len(evs) > 16000:
+                random.Random(ck.seed).shuffle(evs)
+                evs = evs[:16000]
+                ck.exhaustive = False
+            chunks = [evs]
+        else:
+            # every event, judged in slices so that neither this process nor TLC holds millions of events at once
+            def slices():
+                cur = []
+                with open(tr) as f:
+                    for line in f:
+                        e = json.loads(line)
+                        if prop_of(e) == pid:
+                            cur.append(e)
+                            if len(cur) >= 200000:
+                                yield cur
+                                cur = []
+                if cur:
+                    yield cur
+            chunks = slices()
+        for k, evs in enumerate(chunks):
+            judge(ck, pid, evs, "model-files" + ("" if not thorough else "[%d]" % k), work)
+            for e in evs:
+                if len(e.get("text", [])) > 0:
+                    nontriv_h.add(hashlib.blake2b(json.dumps(e["text"]).encode(), digest_size=8).digest())
+            if mid is None:
+                withres = [e for e in evs if "results" in e and "text" in e] or [{"text": [], "results": []}]
+                mid = withres[len(withres) // 2]
+            del evs
+        mid = mid or {"text": [], "results": []}
         ck.samples.append({"source": "file emitted by TLC, read by the real reader",
                            "text": bytes(mid["text"]).decode("latin1"), "results": mid["results"][:3]})
-        nontriv = set(json.dumps(e["text"]) for e in evs if len(e.get("text", [])) > 0)
+        nontriv = nontriv_h
         # (C) random files through the real writers and readers
         rt = os.path.join(work, "random.ndjson")
         n = 12000 if thorough else 1600
@@ -166,7 +192,8 @@ def run_formats(ck, tier, pid):
         judge(ck, pid, revs, "random-files", work)
         ck.samples.append({"source": "random file", "event": {k: v for k, v in revs[0].items() if k != "text"},
                            "text": bytes(revs[0].get("text", [])).decode("latin1")[:200]})
-        nontriv |= set(json.dumps([e.get("text"), e.get("want")]) for e in revs if e.get("text") or e.get("want"))
+        nontriv |= set(hashlib.blake2b(json.dumps([e.get("text"), e.get("want")]).encode(), digest_size=8).digest()
+                       for e in revs if e.get("text") or e.get("want"))
         ck.nontrivial = len(nontriv)
         selftest(ck, pid, revs, work)
     finally:
